@@ -255,7 +255,9 @@ pub fn gen_case(rng: &mut Rng, i: usize, maxrecs: usize) -> MinCase {
     // listing renders names as escaped string literals)
     let names = if i % 4 >= 2 {
         let specials = ["sp|P1|X_Y", "chr1:100-200(+)", "a\"b", "back\\slash", "it's", "[x]", "(p,q)", "\u{e9}t\u{e9}", "k=v;w", "a\"),(\"b", "\u{4e2d}", "tab_no"];
-        Some((0..recs.len()).map(|j| format!("{}_{}", specials[(i + j) % specials.len()], j)).collect())
+        // (one record - one that has bases - carries the empty name: a header line that is just ">")
+        let unnamed = if i % 8 >= 6 { recs.iter().position(|r| r.len() > m + 2) } else { None };
+        Some((0..recs.len()).map(|j| if Some(j) == unnamed { String::new() } else { format!("{}_{}", specials[(i + j) % specials.len()], j) }).collect())
     } else {
         None
     };
